@@ -57,7 +57,10 @@ func DecodeMap(bytes []byte) (*AmmoConfig, error) {
 
 func ExtractVariableStorage(cfg *AmmoConfig) (*vs.SourceStorage, error) {
 	storage := vs.NewVariableStorage()
-	for _, source := range cfg.VariableSources {
+	for i, source := range cfg.VariableSources {
+		if source == nil {
+			return storage, fmt.Errorf("variable source #%d is empty", i)
+		}
 		err := source.Init()
 		if err != nil {
 			return storage, err
